@@ -605,6 +605,10 @@ func racFunction(p *Program, name string) *racResult {
 		res.Note = "no such function under contract"
 		return res
 	}
+	if fc.Kind != "func" {
+		res.Note = "assumed (" + fc.Kind + ") contract: not run against the code"
+		return res
+	}
 	dir, err := os.MkdirTemp(workDir, "replay")
 	if err != nil {
 		res.Note = err.Error()
